@@ -472,7 +472,7 @@ def check_property(pid, tier, seed):
         # ---- systematic windows: for every label a base execution visited, one more execution of the same program in which
         # any goroutine arriving at that label is held there until nothing else can run
         skip = {'call', 'ret', 'c.start', 'quiescent', 'notify.sent', 'notify.dropped', 'sched'}
-        holds, windows = [], []
+        holds, windows, untils = [], [], []
         for e in eps:
             if e['prog']['family'].startswith('m1:') or e['end']['result'] != 'ok':
                 continue
@@ -490,6 +490,22 @@ def check_property(pid, tier, seed):
                     hp['sched']['who'] = whos[lab]           # ... and the process that reached the label in the base run gets there first
                 hp['_who'] = whos.get(lab, '')
                 holds.append(hp)
+            # "P pauses at L while Q advances to U, then P goes on": P = the process that was at L in the base run (it gets there first),
+            # U = a label another process reached later in the base run; the classic two-goroutine window, placed where the base run shows it exists
+            evs = [x for x in e['events'] if x['ev'] not in skip and not x['ev'].startswith('ad.') and x.get('p')]
+            for k in range(6 if tier == 'quick' else 12):
+                if len(evs) < 4:
+                    break
+                i = rng.randrange(len(evs) - 1)
+                later = [x for x in evs[i + 1:i + 60] if x['p'] != evs[i]['p'] and x['ev'] != evs[i]['ev']]
+                if not later or evs[i]['p'][:2] in ('pg', 're', 'ct'):
+                    continue
+                u = rng.choice(later)
+                hp = json.loads(json.dumps(e['prog']))
+                hp['id'] = '%su%d' % (e['prog']['id'], k)
+                hp['sched'] = {'kind': 'hold', 'label': evs[i]['ev'], 'nth': 0, 'who': evs[i]['p'], 'favor': u['p'][:4] if u['p'][:2] in ('di', 'pg') else u['p'],
+                               'until': u['ev'], 'seed': rng.randrange(1 << 30)}
+                untils.append(hp)
             # "X has returned, then a goroutine that had passed its check acts": an internal goroutine is held at a label until
             # a barrier-like client call has returned, then runs alone for a few steps
             after = sorted(set(o['op'] for c in e['prog']['clients'] for o in c['ops']) & WINDOW_AFTER)
@@ -549,6 +565,8 @@ def check_property(pid, tier, seed):
             holds = (rare + rest)[:cap]
         rng.shuffle(windows)
         holds += windows[:cap // 2]
+        rng.shuffle(untils)
+        holds += untils[:cap // 3]
         heps, hcr = vlib.run_episodes(binary, holds, scratch, gomaxprocs=1, tag='h')
         cov['hold_variants'] = len(heps)
         eps += heps
